@@ -43,3 +43,11 @@ Theorem C03_whole_run_no_other_test : forall w o,
   forall t, length (tests w) <= t -> starts_of t (run w o) = 0.
 Proof. exact no_other_test_started. Qed.
 Print Assumptions C03_whole_run_no_other_test.
+
+(* unconditionally — with -x, failing set-ups, un-tearable layers, any -j N — no test is started more often than
+   --repeat asks, counted over all processes, and nothing that is not a selected test is ever started *)
+From ZT Require Import RunAtMost.
+Theorem C03_whole_run_at_most : forall w o t,
+  starts_of t (run w o) <= if Nat.ltb t (length (tests w)) then reps o else 0.
+Proof. exact starts_at_most. Qed.
+Print Assumptions C03_whole_run_at_most.
